@@ -25,7 +25,7 @@ type scN struct {
 	isElse bool
 }
 
-var scNames = []string{"a", "b", "c", "d", "e"}
+var scNames = []string{"a", "b", "c", "_d", "e_1"} // `_d` is an ordinary name: only `_` alone is the anonymous variable
 
 type scGen struct {
 	rng   *rand.Rand
